@@ -355,24 +355,38 @@ def mode_stress(spec):
     from lsprotocol import _hooks, converters
     from lsprotocol import types as T
     n = spec.get("threads", 16)
-    sys.setswitchinterval(1e-6)
+    default_interval = sys.getswitchinterval()
+    sys.setswitchinterval(1e-6)          # many thread switches inside the first calls
     barrier = threading.Barrier(n)
+    created = threading.Barrier(n, action=lambda: sys.setswitchinterval(default_interval))
     res = [None] * n
 
     def worker(i):
         TL.counting = True
         barrier.wait()
+        cv = None
         try:
             cv = converters.get_converter()
-            res[i] = ["ok", digest(run_battery(cv, T)) if spec.get("battery") else ""]
+            res[i] = ["ok", ""]
         except BaseException as e:
             res[i] = ["exc", type(e).__name__, str(e)[:200]]
+        finally:
+            TL.counting = False
+        try:
+            created.wait(60)
+        except threading.BrokenBarrierError:
+            pass
+        if cv is not None and spec.get("battery") and i < spec.get("battery_threads", 4):
+            try:
+                res[i] = ["ok", digest(run_battery(cv, T))]      # first use, concurrently
+            except BaseException as e:
+                res[i] = ["exc", type(e).__name__, str(e)[:200]]
 
     ths = [threading.Thread(target=worker, args=(i,)) for i in range(n)]
     for t in ths:
         t.start()
     for t in ths:
-        t.join(60)
+        t.join(120)
     flag, unresolved = ready_state(_hooks, T)
     json.dump({"results": res, "resolve_calls": CTL.resolve_calls, "flag": flag, "unresolved": unresolved}, sys.stdout)
 
